@@ -201,6 +201,12 @@ def jobs(tier, seed):
     js.append(_job("simplex_3v2r_ternary", 3, 2, T3, T3, T3, "solve_lp"))
     js.append(_job("simplex_1v3r_full", 1, 3, A4, B5, C4, "solve_lp"))
     js.append(_job("simplex_3v1r_full", 3, 1, A4, B5, C4, "solve_lp"))
+    # entries 3 and -3: pivoting on them produces thirds, i.e. the first tableaux with genuine rounding residue (every
+    # other alphabet here is dyadic and therefore exact in binary floating point)
+    js.append(_job("simplex_2v2r_thirds", 2, 2, (-3, -1, 0, 2, 3), (-2, 0, 1, 6), (-3, -1, 0, 2), "solve_lp"))
+    js.append(_job("simplex_3v2r_thirds", 3, 2, (-3, 0, 2, 3), (-2, 0, 6), (-3, -1, 2), "solve_lp"))
+    if tier == "thorough":
+        js.append(_job("simplex_2v3r_thirds", 2, 3, (-3, 0, 2, 3), (-2, 0, 6), (-3, -1, 2), "solve_lp"))
     total33 = _size(3, 3, T3, T3, T3)
     if tier == "thorough":
         js.append(_job("simplex_3v3r_ternary", 3, 3, T3, T3, T3, "solve_lp"))
